@@ -9,7 +9,7 @@ from mc import core, world
 PID = 'C09'
 LEVEL = 'exploration'
 RULE = ('layers: registered default, main file, d1/{10.yaml, 9.yaml, B.yaml, '
-        'a.json, .hidden.yaml (+3 more dot-files with the same content), sub/x.yaml}, d2/a.yaml, plus a configured but '
+        'a.json, .hidden.yaml (+3 more dot-files with the same content), sub/x.yaml}, d2[x]/a.yaml (a directory name holding glob metacharacters), plus a configured but '
         'missing d3; layer i defines a name as role:L<i> so single-role probes '
         'read off the winner.  One name: every subset of the 9 defining '
         'layers x main file absent/empty when unused x directories relative '
@@ -41,7 +41,7 @@ LAYERS = [(0, 'default', None, True), (1, 'main', 'policy.yaml', True),
           (2, 'dir', 'd1/10.yaml', True), (3, 'dir', 'd1/9.yaml', True),
           (4, 'dir', 'd1/B.yaml', True), (5, 'dir', 'd1/a.json', True),
           (6, 'dir', 'd1/.hidden.yaml', False),
-          (7, 'dir', 'd1/sub/x.yaml', False), (8, 'dir', 'd2/a.yaml', True)]
+          (7, 'dir', 'd1/sub/x.yaml', False), (8, 'dir', 'd2[x]/a.yaml', True)]
 # precedence: later in this list wins
 ORDER = [0, 1, 2, 3, 4, 5, 8]
 VISIBLE = [i for i, _, _, v in LAYERS if v]
@@ -105,7 +105,7 @@ def layout(w, defs, fmt_json, main_mode):
     if 'policy.yaml' not in files and main_mode == 'empty':
         files['policy.yaml'] = {}
     w.mkdir('d1')
-    w.mkdir('d2')
+    w.mkdir('d2[x]')
     for rel in sorted(files, reverse=True):
         fmt = 'json' if rel in fmt_json else 'yaml'
         w.write(rel, world.dumps_policy(files[rel], fmt))
@@ -120,7 +120,7 @@ def layout(w, defs, fmt_json, main_mode):
 def enforcer(P, w, defs, absolute, late=False):
     # d0 and d3 are configured but missing (one before, one after the
     # existing directories)
-    dirs = ['d0', 'd1', 'd2', 'd3']
+    dirs = ['d0', 'd1', 'd2[x]', 'd3']
     if absolute:
         dirs = [w.path(d) for d in dirs]
     conf = world.new_conf(w.root, policy_dirs=dirs)
